@@ -60,6 +60,19 @@ func checkC02(ci interface{}, st *Stats) error {
 	if perr != nil {
 		return perr
 	}
+	// The same parser graph on a second, shorter input with a new file, reader and context: the
+	// bound belongs to the parse, not to the grammar object.
+	if !long && len(in) >= 2 {
+		in2 := in[:len(in)/2]
+		probe.InLen = len(normCRLF([]byte(in2)))
+		probe.Base = 1
+		for nt := range g.Rules {
+			ctx2, f2 := NewCtx(in2)
+			if _, _, berr := parseGuarded(b.NT[nt], ctx2, data.EmptyIntMap, f2.Pos(0)); berr != nil {
+				return fmt.Errorf("the same grammar object on a second, shorter input %q, N%d at offset 0: %v", in2, nt, berr)
+			}
+		}
+	}
 	if probe.MaxDepth >= 2 {
 		st.NonTrivial()
 		st.Class("re-entered (depth>=2)")
@@ -93,6 +106,9 @@ func init() {
 			pre := 0
 			if rapid.IntRange(0, 3).Draw(t, "placed") == 0 {
 				pre = rapid.IntRange(1, 300).Draw(t, "preLen")
+				if rapid.IntRange(0, 9).Draw(t, "hugepre") == 4 {
+					pre = rapid.SampledFrom([]int{65533, 65536, 70000}).Draw(t, "hugeLen")
+				}
 			}
 			if rapid.IntRange(0, 31).Draw(t, "long") == 13 { // (rapid favours the ends of a range)
 				return genLongC02(t, pre)
@@ -109,6 +125,7 @@ func init() {
 				o.MaxInput += 2
 			}
 			o.Single = rapid.IntRange(0, 5).Draw(t, "single") == 0
+			o.RuleNames = rapid.IntRange(0, 2).Draw(t, "rulenames") == 1
 			g := GenGrammar(t, o)
 			return &GCase{G: g, In: GenInput(t, g, o), MemoAll: rapid.Bool().Draw(t, "memoAll"), PreLen: pre}
 		},
